@@ -417,6 +417,9 @@ class Interp:
         ref, body, els, opts = n[1], n[2], n[3], n[4]
         o = dict((k, v) for k, v in opts)
         seq = self.evaluate(ref)
+        if seq is UNSPEC:
+            self.unspec = True
+            return
         if isinstance(seq, str):
             raise ValueError('Strings are not allowed as input to the in tag.')
         items = list(seq)
@@ -453,7 +456,8 @@ class Interp:
         pushed = 0
         if ref[0] == 'n':
             # the sequence itself stays reachable under its name
-            self.stack.append(DictFrame({ref[1]: UNSPEC}))
+            self.stack.append(DictFrame(
+                {ref[1]: seq if isinstance(seq, (list, tuple)) else UNSPEC}))
             pushed += 1
         self.stack.append(frame)
         pushed += 1
